@@ -28,10 +28,15 @@ var c12Universe = []ref.Suite{{3, 4, 1}, {1, 1, 1}, {2, 2, 1}, {1, 0, 0}} // 17,
 var c12IDs = []byte{17, 3, 8, 1}
 
 type c12Case struct {
-	Prefs    []int       `json:"prefs"`    // indexes into the universe, in preference order
-	Adv      int         `json:"adv"`      // bitmask of advertised universe members
-	AdvOrder int         `json:"advorder"` // 0 ascending universe order, 1 descending, 2 merged multi-algorithm record
-	Announce *ref.Suite  `json:"announce"` // triple placed in the Open Session Response (nil: echo the request)
+	Prefs    []int      `json:"prefs"`    // indexes into the universe, in preference order
+	Adv      int        `json:"adv"`      // bitmask of advertised universe members
+	AdvOrder int        `json:"advorder"` // 0 ascending universe order, 1 descending, 2 merged multi-algorithm record
+	Announce *ref.Suite `json:"announce"` // triple placed in the Open Session Response (nil: echo the request)
+	// Wildcard: bit k set = algorithm payload k of the response is a zero-length wildcard payload
+	Wildcard int `json:"wildcard,omitempty"`
+	// First: if non-nil, a first session with these preferences is opened and
+	// closed on the same connection before the session under test
+	First []int `json:"first,omitempty"`
 }
 
 func c12Adv(c c12Case) []byte {
@@ -70,8 +75,23 @@ func c12Adv(c c12Case) []byte {
 func c12One(c c12Case, r *rep.R) (string, string) {
 	cfg := defaultConfig()
 	cfg.CipherSuiteData = c12Adv(c)
-	cfg.Announce = c.Announce
 	w := newWorld(cfg, nil, nil)
+	if c.First != nil {
+		var fp []ipmi.CipherSuite
+		for _, i := range c.First {
+			if i >= 0 { // {-1} stands for the default list
+				fp = append(fp, suiteOf(c12Universe[i]))
+			}
+		}
+		if s, err := w.Conn.NewV2Session(w.Ctx, &bmc.V2SessionOpts{SessionOpts: bmc.SessionOpts{Username: "first", Password: cfg.Password, MaxPrivilegeLevel: ipmi.PrivilegeLevelOperator}, CipherSuites: fp}); err == nil {
+			s.Close(w.Ctx)
+		}
+		w.BMC.Log = nil
+	}
+	w.BMC.Cfg.Announce = c.Announce
+	for k := 0; k < 3; k++ {
+		w.BMC.Cfg.AnnounceWildcard[k] = c.Wildcard&(1<<k) != 0
+	}
 	var prefs []ipmi.CipherSuite
 	for _, i := range c.Prefs {
 		prefs = append(prefs, suiteOf(c12Universe[i]))
@@ -148,6 +168,15 @@ func c12One(c c12Case, r *rep.R) (string, string) {
 	if c.Announce != nil {
 		announced = *c.Announce
 	}
+	if c.Wildcard&1 != 0 {
+		announced.Auth = 0xFF // a wildcard names no algorithm: it confirms nothing
+	}
+	if c.Wildcard&2 != 0 {
+		announced.Integ = 0xFF
+	}
+	if c.Wildcard&4 != 0 {
+		announced.Conf = 0xFF
+	}
 	if sess != nil {
 		got := ref.Suite{Auth: byte(sess.AuthenticationAlgorithm), Integ: byte(sess.IntegrityAlgorithm), Conf: byte(sess.ConfidentialityAlgorithm)}
 		if announced != *want {
@@ -189,7 +218,7 @@ func runC12(r *rep.R) {
 			return
 		}
 		key, msg := c12One(c, r)
-		r.Eval(rep.H(fmt.Sprintf("%v|%d|%d|%v", c.Prefs, c.Adv, c.AdvOrder, c.Announce)), true)
+		r.Eval(rep.H(fmt.Sprintf("%v|%d|%d|%v|%d|%v", c.Prefs, c.Adv, c.AdvOrder, c.Announce, c.Wildcard, c.First)), true)
 		r.Trace()
 		if r.WantSample() {
 			r.Sample(c)
@@ -236,6 +265,28 @@ func runC12(r *rep.R) {
 				}
 			}
 		}
+	}
+	// part B': zero-length (wildcard) algorithm payloads in the response
+	for _, p := range []int{0, 1, 2} {
+		for wc := 1; wc < 8; wc++ {
+			do(c12Case{Prefs: []int{p}, Adv: 0xF, Wildcard: wc})
+			do(c12Case{Prefs: []int{p}, Adv: 0xF, Wildcard: wc, Announce: &c12Universe[p]})
+		}
+	}
+	// part C: a session was opened (and closed) on the same connection before, with
+	// other preferences: the choice must not depend on it
+	firsts := [][]int{{-1}, {0, 1}, {1, 0}, {2, 1}, {1}, {3, 1}}
+	for _, f := range firsts {
+		for _, l := range lists {
+			if len(l) == 1 || len(l) > 3 {
+				continue
+			}
+			for _, adv := range []int{0x3, 0x2, 0x7, 0x6, 0xF, 0x8} {
+				do(c12Case{Prefs: l, Adv: adv, AdvOrder: 0, First: f})
+			}
+		}
+		do(c12Case{Prefs: nil, Adv: 0x3, First: f})
+		do(c12Case{Prefs: nil, Adv: 0x2, First: f})
 	}
 	// part B through the default list and discovery as well
 	for _, a := range []byte{1, 3} {
